@@ -76,11 +76,18 @@ Source(c, i) ==
          IF i <= c.u THEN (IF HasDefault(c, i) THEN "unspecified" ELSE "raise")
          ELSE (IF HasDefault(c, i) THEN "default" ELSE "unspecified")
 
+(* every source supplies exactly 0 at one position (override 1, given number 2, default 3), so *)
+(* that a falsy value is never mistaken for "absent"; at each position the sources stay distinct  *)
+OvrVal(i)  == IF i = 1 THEN 0 ELSE 30 + i
+ArgVal(i)  == IF i = 2 THEN 0 ELSE 10 + i
+DefVal(i)  == IF i = 3 THEN 0 ELSE 20 + i
+NameVal(i) == 40 + i
+ExprVal(i) == 50 + i
 ValueOf(c, i) ==
     LET s == Source(c, i) IN
-    IF s = "override" THEN 30 + i
-    ELSE IF s = "default" THEN 20 + i
-    ELSE IF s = "arg" THEN (IF c.kinds[i] = "num" THEN 10 + i ELSE IF c.kinds[i] = "name" THEN 40 + i ELSE 50 + i)
+    IF s = "override" THEN OvrVal(i)
+    ELSE IF s = "default" THEN DefVal(i)
+    ELSE IF s = "arg" THEN (IF c.kinds[i] = "num" THEN ArgVal(i) ELSE IF c.kinds[i] = "name" THEN NameVal(i) ELSE ExprVal(i))
     ELSE -1
 Resolution(c) == [i \in 1..c.n |-> [src |-> Source(c, i), v |-> ValueOf(c, i)]]
 (* arg(..., evaluate=False): a given argument that is an expression is handed back as the      *)
@@ -134,7 +141,7 @@ OverrideReplacesExactlyOne ==
         \A j \in 1..cfg.u :
             LET on  == Resolution(WithPresent(cfg, cfg.present \cup {j}))
                 off == Resolution(WithPresent(cfg, cfg.present \ {j}))
-            IN  /\ on[j] = [src |-> "override", v |-> 30 + j]
+            IN  /\ on[j] = [src |-> "override", v |-> OvrVal(j)]
                 /\ off[j].src # "override"
                 /\ \A i \in 1..cfg.n : i # j => on[i] = off[i]
 (* and the recorded resolution is the one of the configuration *)
@@ -290,6 +297,8 @@ AllLawClasses == {"MassAction", "Arrhenius", "Eyring", "EyringHS", "Radiolytic",
     "ArrheniusParts", "EyringParts",
     \* create_Piecewise(..., nan_fallback=False) with three constant pieces
     "PiecewiseNum",
+    \* Expr.from_callback(cb, argument_names=, argument_defaults=) and Expr.from_callback(cb, nargs=2)
+    "CallbackDefault", "CallbackNargs",
     \* mk_Radiolytic(*names) for name sequences in GIVEN (not alphabetical) order
     "RadiolyticGA", "RadiolyticBA", "RadiolyticNGA"}
 (* dose-rate names of the multi-dose radiolytic classes, in the order given to mk_Radiolytic: the i-th *)
@@ -338,6 +347,7 @@ LawArgs(c, k) ==
       [] c = "ArrheniusParts" -> <<"A", "Ea">>
       [] c = "EyringParts"  -> <<"dH", "dS">>
       [] c = "PiecewiseNum" -> <<"lo", "v0", "m1", "v1", "m2", "v2", "hi">>
+      [] c \in {"CallbackDefault", "CallbackNargs"} -> <<"a", "b">>
 (* classes whose instances are Expr objects with unique_keys (override patterns apply)        *)
 ExprClasses == AllLawClasses \ ({"TPiecewise", "Log10Wrap", "ExpWrap", "ArrheniusParam", "EyringParam",
                                  "ArrheniusFromK", "FitArrhenius", "FitEyring", "LeastSquares",
@@ -366,7 +376,7 @@ ScaleNum(x, f) == <<x[1] * f[1], x[2] * f[2], x[3]>>
 (* it again, evaluating it through Reaction.rate, or evaluating ANOTHER expression (a companion  *)
 (* reaction X + Y -> Q with a plain mass-action constant) in between, all with the SAME mapping, *)
 (* must give the same numbers, and the mapping must come back unchanged (frame condition).       *)
-StepKinds == {"self", "rate", "companion", "update"}
+StepKinds == {"self", "rate", "companion", "update", "setarg"}
 FullHistories == {<<"self">>, <<"self", "self">>, <<"companion", "self">>, <<"self", "companion", "rate">>,
                   <<"rate", "companion", "rate">>}
 HistoriesOfForm(c, p, tf) ==
@@ -374,18 +384,24 @@ HistoriesOfForm(c, p, tf) ==
                         (IF c \in RateClasses THEN {<<"rate", "update", "rate">>, <<"self", "update", "rate">>} ELSE {})
     ELSE IF c \in {"FitArrhenius", "FitEyring", "LeastSquares"} THEN {<<"self">>}
     ELSE IF c \in RateClasses /\ p \in {"none", "all"} THEN FullHistories
+    \* the caller reassigns the first argument of the expression object between two evaluations
+    ELSE IF c \in ExprClasses /\ c \notin {"ArrheniusAsRate", "EyringAsRate"} /\ p \in {"none", "first", "absent"}
+         THEN {<<"self">>, <<"self", "self">>, <<"self", "setarg", "self">>}
     ELSE {<<"self">>, <<"self", "self">>}
 IsPrefix(a, b) == Len(a) <= Len(b) /\ \A i \in 1..Len(a) : a[i] = b[i]
 CompanionK == <<7, 4, 0>>
 UsesTemp(c) == c \in {"Arrhenius", "Eyring", "EyringHS", "TPoly", "RTPoly", "ShiftedTPoly", "ShiftedRTPoly",
                       "TPiecewise", "Log10Wrap", "ExpWrap", "GibbsEqConst", "ArrheniusParam", "EyringParam",
                       "ArrheniusFromK", "ArrheniusAsRate", "EyringAsRate", "MassActionCallback", "EqCallback",
-                      "PiecewiseNum"}
+                      "PiecewiseNum", "CallbackDefault", "CallbackNargs"}
 
 FixedNargs == MultiDose \cup {"MassAction", "Arrhenius", "Eyring", "EyringHS", "Radiolytic", "RampedTemp",
-               "SinTemp", "MassActionEq", "EqEquation", "GibbsEqConst", "MassActionCallback", "EqCallback"}
+               "SinTemp", "MassActionEq", "EqEquation", "GibbsEqConst", "MassActionCallback", "EqCallback",
+               "CallbackDefault"}
 (* trailing defaults (Eyring / EyringHS: the standard-state concentration, 1 molar) *)
-LawDefaults(c) == IF c = "Eyring" THEN [conc0 |-> NumI(1)] ELSE IF c = "EyringHS" THEN [c0 |-> NumI(1)] ELSE <<>>
+LawDefaults(c) == IF c = "Eyring" THEN [conc0 |-> NumI(1)] ELSE IF c = "EyringHS" THEN [c0 |-> NumI(1)]
+                  ELSE IF c = "CallbackDefault" THEN [b |-> <<0, 1, 0>>]      \* a default that is exactly 0
+                  ELSE <<>>
 
 (* override patterns: number of unique keys (a prefix of the arguments) and which are present *)
 PatternKeys(p, n) ==
@@ -457,6 +473,7 @@ LawTerms(c, a, x, k) ==
       [] c = "EqCallback" -> <<TExp(TSub(a["dS_over_R"], TDiv(a["dH_over_R"], x["T"])))>>
       [] c \in {"MA_mul_num", "MA_rmul_num", "MA_mul_expr", "MA_rmul_expr"} -> <<TMul3(a["k"], a["f"], ConcProd(k, x))>>
       [] c = "MA_div_num" -> <<TMul(TDiv(a["k"], a["f"]), ConcProd(k, x))>>
+      [] c \in {"CallbackDefault", "CallbackNargs"} -> <<TAdd(TMul(a["a"], x["T"]), a["b"])>>
       [] c = "ArrheniusParts" -> <<TDiv(a["Ea"], RGas)>>
       [] c = "EyringParts" -> <<TMul(KBH, TExp(TDiv(a["dS"], RGas))), TDiv(a["dH"], RGas)>>
 
@@ -525,8 +542,10 @@ ResultUnits(c, k) ==
 FitVariants(c) ==
     IF c = "FitArrhenius" THEN <<"kerr=None", "kerr=1%", "kerr=mixed", "nonlinear", "nonlinear-kerr", "from_fit_of_data">>
     ELSE IF c = "FitEyring" THEN <<"kerr=None", "kerr=1%", "kerr=mixed", "nonlinear", "nonlinear-kerr">>
-    ELSE IF c = "LeastSquares" THEN <<"ols", "weighted", "weighted-mixed", "irls", "units">>
+    ELSE IF c = "LeastSquares" THEN <<"ols", "weighted", "weighted-mixed", "irls", "irls-gaussian-itermax3", "irls-exp", "units">>
     ELSE <<>>
+(* the mapping's keys for the abstract species: real keys carry charges and phase marks *)
+SpeciesKeys == [X |-> "Fe+3", Y |-> "SCN-(aq)", P |-> "FeSCN+2", Q |-> "Q*"]
 (* cfg = [cls, order, pattern, pset (parameter set), temp, mode] *)
 ChooseLaw(c, k, p) ==
     /\ part = "laws" /\ stage = "start" /\ c \in AllLawClasses /\ k \in 1..3 /\ p \in AllPatterns
@@ -557,19 +576,20 @@ ChooseTemp(t, tf) ==
     /\ part = "laws" /\ stage = "temp" /\ tf \in {"value", "expr"}
     /\ (tf = "expr" => cfg.cls \in NestedTClasses /\ t[3] = 0)
     /\ cfg' = [cls |-> cfg.cls, order |-> cfg.order, pattern |-> cfg.pattern, pset |-> cfg.pset, temp |-> t,
-               tform |-> tf, time |-> Time0]
+               tform |-> tf, time |-> Time0, argset |-> FALSE]
     /\ stage' = "mode" /\ UNCHANGED <<part, stack, out>>
 
 Evaluate(m) ==
     /\ part = "laws" /\ stage = "mode" /\ m \in ModesOf(cfg.cls)
     \* a defaulted standard state is a quantity (1 molar): only meaningful with units
-    /\ (cfg.pset.ngiven < Len(LawArgs(cfg.cls, cfg.order)) => m \in {"units", "units-scaled"})
+    /\ (cfg.pset.ngiven < Len(LawArgs(cfg.cls, cfg.order)) /\ cfg.cls \in {"Eyring", "EyringHS"}
+          => m \in {"units", "units-scaled"})
     \* outside the bounds of a piecewise definition only the numeric backends refuse (ValueError)
     /\ (cfg.cls = "PiecewiseNum" => m \in {"math", "numpy"} \/
           LET a == [nm \in DOMAIN cfg.pset.v |-> TNum(cfg.pset.v[nm])] IN ~PiecewiseNumOut(a, [T |-> TNum(cfg.temp)]))
     /\ (cfg.tform = "expr" => m \in {"math", "numpy", "sympy", "units"})
     /\ cfg' = [cls |-> cfg.cls, order |-> cfg.order, pattern |-> cfg.pattern, pset |-> cfg.pset,
-               temp |-> cfg.temp, tform |-> cfg.tform, time |-> cfg.time, mode |-> m]
+               temp |-> cfg.temp, tform |-> cfg.tform, time |-> cfg.time, argset |-> FALSE, mode |-> m]
     /\ stage' = "hist" /\ stack' = <<>> /\ UNCHANGED <<part, out>>
 
 GenLaw   == \E c \in LawClasses, k \in Orders, p \in Patterns : ChooseLaw(c, k, p)
@@ -586,7 +606,7 @@ ArgName(i) == LawArgs(cfg.cls, cfg.order)[i]
 Overridden(i) == LawKeys.u # -1 /\ i <= LawKeys.u /\ i \in LawKeys.present
 EffArgs == [nm \in Range(LawArgs(cfg.cls, cfg.order)) |->
               LET i == CHOOSE j \in 1..LawN : ArgName(j) = nm
-              IN  IF Overridden(i) THEN cfg.pset.alt[nm]
+              IN  IF Overridden(i) \/ (i = 1 /\ cfg.argset) THEN cfg.pset.alt[nm]
                   ELSE IF i > cfg.pset.ngiven THEN LawDefaults(cfg.cls)[nm] ELSE cfg.pset.v[nm]]
 (* as_RateExpr(unique_keys): the keys name the arguments of the GENERATED expression - Arrhenius(A,   *)
 (* Ea_over_R), Eyring(kB/h*exp(dS/R), dH_over_R).  A present key replaces exactly that derived        *)
@@ -630,7 +650,7 @@ Whos == [i \in 1..Len(stack) |-> stack[i].who]
 EvalStep(who) ==
     /\ part = "laws" /\ stage = "hist" /\ who \in StepKinds
     /\ (who \in {"rate", "companion"} => cfg.cls \in RateClasses)
-    /\ who # "update"
+    /\ who \notin {"update", "setarg"}
     /\ stack' = Append(stack, [who |-> who, store |-> Store,
                                lanes |-> [l \in 1..NLanes |-> StepTermsLane(who, l)]])
     /\ UNCHANGED <<part, stage, cfg, out>>
@@ -642,13 +662,20 @@ UpdateStep ==
                                    <<cfg.temp[1] + RampRate * (Time1 - Time0) * cfg.temp[2], cfg.temp[2], 0>>],
                                lanes |-> <<>>])
     /\ UNCHANGED <<part, stage, out>>
+(* the CALLER assigns a new first argument to the expression object (expr.args = [new, ...]): the next *)
+(* evaluation uses it; an override by key still wins                                                  *)
+SetArgStep ==
+    /\ part = "laws" /\ stage = "hist" /\ ~cfg.argset
+    /\ cfg' = [cfg EXCEPT !.argset = TRUE]
+    /\ stack' = Append(stack, [who |-> "setarg", store |-> Store, lanes |-> <<>>])
+    /\ UNCHANGED <<part, stage, out>>
 FinishHist ==
     /\ part = "laws" /\ stage = "hist" /\ Len(stack) >= 1
     /\ stage' = "done" /\ UNCHANGED <<part, cfg, stack, out>>
 GenStep == \E who \in StepKinds :
               /\ stage = "hist"
               /\ \E h \in HistoriesOfForm(cfg.cls, cfg.pattern, cfg.tform) : IsPrefix(Append(Whos, who), h)
-              /\ (IF who = "update" THEN UpdateStep ELSE EvalStep(who))
+              /\ (IF who = "update" THEN UpdateStep ELSE IF who = "setarg" THEN SetArgStep ELSE EvalStep(who))
 GenFinishHist == stage = "hist" /\ Whos \in HistoriesOfForm(cfg.cls, cfg.pattern, cfg.tform) /\ FinishHist
 
 (* every evaluation saw the store that was passed in, and evaluations of the same expression    *)
@@ -658,7 +685,7 @@ EvaluationIsPure ==
         /\ (stack # <<>> => stack[Len(stack)].store = Store)
         \* between two updates by the caller nothing moves: same store, same terms for the same expression
         /\ \A i, j \in 1..Len(stack) :
-              (i < j /\ \A m \in i..j : stack[m].who # "update") =>
+              (i < j /\ \A m \in i..j : stack[m].who \notin {"update", "setarg"}) =>
                  /\ stack[i].store = stack[j].store
                  /\ ((stack[i].who = "companion") = (stack[j].who = "companion") => stack[i].lanes = stack[j].lanes)
         \* an update is seen by the evaluation that follows it
@@ -668,7 +695,7 @@ UsedBrackets(ts) == (UNION { TermVars(ts[i]) : i \in 1..Len(ts) }) \cap DOMAIN B
 (* the law-level statement of "a named override replaces exactly that argument" *)
 LawOverrideExact ==
     (part = "laws" /\ Done) =>
-        \A i \in 1..LawN : EffArgs[ArgName(i)] = IF Overridden(i) THEN cfg.pset.alt[ArgName(i)]
+        \A i \in 1..LawN : EffArgs[ArgName(i)] = IF Overridden(i) \/ (i = 1 /\ cfg.argset) THEN cfg.pset.alt[ArgName(i)]
                                                  ELSE IF i > cfg.pset.ngiven THEN LawDefaults(cfg.cls)[ArgName(i)]
                                                  ELSE cfg.pset.v[ArgName(i)]
 (* rate classes: the value is the rate constant times the concentration product; order 1 with  *)
@@ -700,6 +727,9 @@ AlgClass == LET w == stack[1].w IN
 CaseRec ==
     IF part = "resolve" THEN
         [ in  |-> [part |-> "resolve", n |-> cfg.n, d |-> cfg.d, g |-> cfg.g, form |-> cfg.form,
+                   values |-> [ovr |-> [i \in 1..4 |-> OvrVal(i)], arg |-> [i \in 1..4 |-> ArgVal(i)],
+                               def |-> [i \in 1..4 |-> DefVal(i)], name |-> [i \in 1..4 |-> NameVal(i)],
+                               expr |-> [i \in 1..4 |-> ExprVal(i)]],
                    kinds |-> cfg.kinds, u |-> cfg.u, present |-> [i \in 1..(IF cfg.u > 0 THEN cfg.u ELSE 0) |-> i \in cfg.present]],
           cls |-> IF ~CtorOK(cfg) THEN "ctor-raise"
                   ELSE "res-n" \o ToString(cfg.n) \o (IF cfg.g = -1 THEN "-noargs" ELSE "")
@@ -730,7 +760,7 @@ CaseRec ==
                    keys |-> LawKeys.u, present |-> [i \in 1..(IF LawKeys.u > 0 THEN LawKeys.u ELSE 0) |-> i \in LawKeys.present],
                    args_absent |-> PatternArgsAbsent(cfg.pattern), mode |-> cfg.mode,
                    argform |-> (IF cfg.pattern = "dict" THEN "dict" ELSE "list"), variants |-> FitVariants(cfg.cls),
-                   hist |-> Whos, tform |-> cfg.tform, dose_names |-> DoseNames(cfg.cls),
+                   hist |-> Whos, tform |-> cfg.tform, species_keys |-> SpeciesKeys, defaults |-> LawDefaults(cfg.cls), dose_names |-> DoseNames(cfg.cls),
                    ramp |-> [T0 |-> RampT0, dTdt |-> NumI(RampRate), time0 |-> NumI(Time0), time1 |-> NumI(Time1)],
                    key_units |-> [nm \in Range(LawArgs(cfg.cls, cfg.order)) |->
                                     (IF cfg.mode = "units-scaled" THEN AltUnit(KeyUnit(cfg.cls, nm, cfg.order))
